@@ -14,6 +14,7 @@ def outOfKind : String → Option (Option Out)
   | "wrongcount_declined" | "wrongcount_accepting" | "shortcount_accepting" => some (some .lenMismatch)
   | "all_declined" => some (some .declined)
   | "accepted_after_stop" => some (some .shutdown)
+  | "accepted_dial_unanswered" => some (some .dialFail)
   | "accepted_in_progress" => some none
   | _ => none
 
@@ -101,7 +102,7 @@ def step (toks : List String) (impl : String) : Res :=
   | some "procoffer" =>
     let limit := kvNat toks "limit"
     let kind := kv toks "kind"
-    let first := if kind == "all_declined" || kind == "accepted_in_progress" || kind == "accepted_after_stop" then "ok" else "err"
+    let first := if kind == "all_declined" || kind == "accepted_in_progress" || kind == "accepted_after_stop" || kind == "accepted_dial_unanswered" then "ok" else "err"
     -- while an accepted transfer is in progress its slot is held (Pm: holding counts it); otherwise it is back
     let expectFree := match outOfKind kind with
       | some path => freeAfter limit 1 (path.map outCalls)
